@@ -164,6 +164,25 @@ def r2(ctx):
     ctx.floor("C13.R2", "release sites", len(decs), 2)
 
 
+def deadline_sites(repo, f):
+    """[(CFG node, statement)] where f arms a keep-alive deadline: `<conn>.timeout = <clock> + ...` written in place
+    (or expanded from TConn.set_timeout), or a remaining call `<conn>.set_timeout()`"""
+    from .c11 import CLOCKS
+    out = []
+    for s in f.cfg.stmts(ast.Assign):
+        if any(isinstance(t, ast.Attribute) and t.attr == "timeout" for t in s.ast.targets) and \
+                any(isinstance(c, ast.Call) and repo.call_target(f.module, f, c) in CLOCKS for c in ast.walk(s.ast.value)):
+            out.append((s, s.ast))
+    for c in method_calls(f, "set_timeout"):
+        for nn in nodes_with(f, c):
+            out.append((nn, c))
+    return out
+
+
+def gthread_funcs(repo):
+    return [ff for ff in repo.funcs() if ff.module.name == "gunicorn.workers.gthread"]
+
+
 def r3(ctx):
     repo = ctx.repo
     f = ctx.fn(repo.func(TW + ".finish_request"))
@@ -171,7 +190,7 @@ def r3(ctx):
     dec = [s for s in g.stmts(ast.AugAssign) if tail(s.ast.target) == "nr_conns"]
     app = [nn for c in method_calls(f, ("append", "appendleft")) if tail(c.func.value) == "_keep" for nn in nodes_with(f, c)]
     reg = [nn for c in method_calls(f, "register") if tail(c.func.value) == "poller" for nn in nodes_with(f, c)]
-    sto = [nn for c in method_calls(f, "set_timeout") for nn in nodes_with(f, c)]
+    sto = [nn for nn, _ in deadline_sites(repo, f)]
     ctx.need(dec and app and reg, "C13.R3: finish_request lacks release or re-arm statements")
     if not sto:
         ctx.bad("C13.R3", key(f, "deadline-at-idle"), site(f), "finish_request re-arms a keep-alive connection without setting its deadline at that moment (conn.set_timeout()): "
@@ -248,7 +267,10 @@ def r3(ctx):
     ctx.check("C13.R3", all(any(g.dominates(s, a, follow_exc=False) for s in sto) for a in app), key(f, "deadline-before-queue"), site(f), "the connection is queued for keep-alive before its deadline is set (the reaper could read a stale/None deadline)",
               "set_timeout before _keep.append")
     # it is installed as the done-callback
-    fw = ctx.fn(repo.func(TW + "._wrap_future"))
+    # (in _wrap_future, or wherever that three-line helper was written/expanded in place)
+    cands = [ff for ff in repo.cls(TW).methods.values() if any(c.args and repo.resolve(ff.module, ff, c.args[0]) == "self.finish_request" for c in method_calls(ff, "add_done_callback"))]
+    ctx.need(cands, "C13.R3: finish_request is never installed as a done-callback")
+    fw = ctx.fn(cands[0])
     cb = [c for c in method_calls(fw, "add_done_callback") if c.args and repo.resolve(fw.module, fw, c.args[0]) == "self.finish_request"]
     ctx.check("C13.R3", bool(cb), key(fw, "callback"), site(fw), "finish_request is not installed as the future's done-callback", "add_done_callback(self.finish_request)")
     st = [x for x in walk_own(fw.node) if isinstance(x, ast.Assign) and any(isinstance(t, ast.Attribute) and t.attr == "conn" for t in x.targets)]
@@ -278,8 +300,8 @@ def r4(ctx):
     ctx.check("C13.R4", okk, key(f, "lost-race-returns"), site(f), "when the reaper already removed the connection (ValueError) the request is still enqueued on a closed connection", "return on ValueError")
     fe = ctx.fn(repo.func(TW + ".enqueue_req"))
     sub = [c for c in method_calls(fe, "submit") if c.args and repo.resolve(fe.module, fe, c.args[0]) == "self.handle"]
-    wf = calls_to(repo, fe, TW + "._wrap_future")
-    ctx.check("C13.R4", bool(sub) and bool(wf), key(fe, "submit-and-wrap"), site(fe), "enqueue_req does not submit the connection and install the completion callback", "submit + _wrap_future")
+    wf = calls_to(repo, fe, TW + "._wrap_future") + [c for c in method_calls(fe, "add_done_callback") if c.args and repo.resolve(fe.module, fe, c.args[0]) == "self.finish_request"]
+    ctx.check("C13.R4", bool(sub) and bool(wf), key(fe, "submit-and-wrap"), site(fe), "enqueue_req does not submit the connection and install the completion callback", "submit + done-callback")
 
 
 def r5(ctx):
@@ -365,15 +387,20 @@ def r6(ctx):
     nows = [s for s in g.stmts(ast.Assign) if isinstance(s.ast.value, ast.Call) and (repo.call_target(f.module, f, s.ast.value) or "").startswith("time.")]
     ctx.check("C13.R6", bool(nows), key(f, "reads-clock"), site(f), "the reaper does not read the clock", "now = time.time()")
     from .c11 import clocks_in
-    a = set(clocks_in(repo, repo.func("gunicorn.workers.gthread.TConn.set_timeout")))
+    sites = [(ff, nn, st) for ff in gthread_funcs(repo) for nn, st in deadline_sites(repo, ff) if not isinstance(st, ast.Call)]
+    ctx.need(sites, "C13.R6: no statement arms a keep-alive deadline (<conn>.timeout = <clock> + keepalive)")
+    a = set(q for ff, nn, st in sites for q in clocks_in(repo, ff, st))
     b = set(clocks_in(repo, f))
     ctx.check("C13.R6", len(a) == 1 and a == b, key(f, "same-clock"), site(f), "deadline clock %s differs from reaper clock %s" % (sorted(a), sorted(b)), "same clock %s" % sorted(a))
-    fs = repo.func("gunicorn.workers.gthread.TConn.set_timeout")
-    ctx.check("C13.R6", any(cfg_attr(x) == "keepalive" for x in walk_own(fs.node)), key(fs, "deadline-from-keepalive"), site(fs), "the deadline is not now + cfg.keepalive", "deadline = now + cfg.keepalive")
+    for ff, nn, st in sites:
+        ctx.fn(ff)
+        ctx.check("C13.R6", any(cfg_attr(x) == "keepalive" for x in ast.walk(st.value)) and isinstance(st.value, ast.BinOp) and isinstance(st.value.op, ast.Add),
+                  key(ff, "deadline-from-keepalive"), site(ff, nn), "the deadline is not now + cfg.keepalive", "deadline = now + cfg.keepalive")
     # the deadline is armed only when a connection goes idle (finish_request), never at dispatch
-    for ff in repo.funcs():
-        for c in walk_own(ff.node):
-            if isinstance(c, ast.Call) and isinstance(c.func, ast.Attribute) and c.func.attr == "set_timeout" and ff.module.name == "gunicorn.workers.gthread":
-                ctx.check("C13.R6", ff.qualname == TW + ".finish_request", key(ff, "deadline-armed-elsewhere"), site(ff, c),
-                          "the keep-alive deadline is (re)armed outside finish_request: handling time is charged against the idle allowance and _keep is no longer ordered by deadline",
-                          "armed when the connection goes idle")
+    for ff in gthread_funcs(repo):
+        if ff.qualname == "gunicorn.workers.gthread.TConn.set_timeout":
+            continue
+        for nn, st in deadline_sites(repo, ff):
+            ctx.check("C13.R6", ff.qualname == TW + ".finish_request", key(ff, "deadline-armed-elsewhere"), site(ff, nn),
+                      "the keep-alive deadline is (re)armed outside finish_request: handling time is charged against the idle allowance and _keep is no longer ordered by deadline",
+                      "armed when the connection goes idle")
